@@ -62,6 +62,43 @@ def run(ctx, obs):
     movie(ctx, obs)
     # 4. SCALE
     scale_rule.check_estimators(ctx, obs)
+    # 7. AXIS roles in the estimator kernels: (conditions C) x (channels F) in, (C, C) into the triangle extraction
+    kernel_axes(ctx, obs)
+
+
+def kernel_axes(ctx, obs, rule='AXIS'):
+    from ..rules.axis import AxisEval, Contract
+    contracts = {
+        CALC + '_parse_input': Contract({}, None, [('C', 'F'), None]),
+        CALC + '_check_noise': Contract({}, ('F', 'F')),
+        'util.rdm_utils._extract_triu_': Contract({}, ('P',)),
+        CALC + 'calc_rdm_poisson': Contract({'prior_lambda': (), 'prior_weight': ()}),      # documented scalars
+        CALC + '_calc_rdm_crossnobis_single': Contract({'meas1': ('C', 'F'), 'meas2': ('C', 'F'), 'noise': ('F', 'F')}, ('P',)),
+    }
+    typed = 0
+    for fn in ('calc_rdm_euclidean', 'calc_rdm_correlation', 'calc_rdm_mahalanobis', 'calc_rdm_poisson', '_calc_rdm_crossnobis_single'):
+        q = CALC + fn
+        ev = AxisEval(ctx, q, contracts)
+        typed += ev.check_function(obs, rule, None)
+        # the matrix handed to the triangle extraction is conditions x conditions
+        f = ctx.prog.func(q)
+        for c in ast.walk(f.node):
+            if isinstance(c, ast.Call) and isinstance(c.func, ast.Name) and c.func.id == '_extract_triu_' and c.args:
+                r = ev.roles(c.args[0])
+                con = 'the matrix whose upper triangle becomes the RDM is conditions x conditions'
+                if r is None or len(r) != 2 or '?' in r:
+                    obs.unk(rule, q, con, f'roles of `{norm(c.args[0])[:50]}`: {r}', where(ctx.prog, f, c))
+                else:
+                    obs.check(tuple(r) == ('C', 'C'), rule, q, con, f'`{norm(c.args[0])[:50]}` has axes {r}', '', where(ctx.prog, f, c))
+            if isinstance(c, ast.Call) and isinstance(c.func, ast.Name) and c.func.id == '_build_rdms' and c.args:
+                r = ev.roles(c.args[0])
+                con = 'the dissimilarities handed to the RDMs constructor are a pair vector or a conditions x conditions matrix'
+                if r is None or '?' in r:
+                    obs.unk(rule, q, con, f'roles of `{norm(c.args[0])[:50]}`: {r}', where(ctx.prog, f, c))
+                else:
+                    obs.check(tuple(r) in (('P',), ('C', 'C')), rule, q, con, f'`{norm(c.args[0])[:50]}` has axes {r}', '',
+                              where(ctx.prog, f, c))
+    obs.analysed['kernel_axis_statements_typed'] = typed
 
 
 def method_dispatch(ctx, obs, q, expected, rule='EXH', var='method'):
